@@ -71,6 +71,19 @@ func init() {
 				c.TimeoutMS = 60000
 				cs = append(cs, c)
 			}
+			// two shapes on purpose: a plan cut inside a stage whose successor has the same (inherited) parameters; a users
+			// stage with more users than limits.concurrency followed by a rate stage that asks for more than it can run
+			nsh := 2
+			if tier == "thorough" {
+				nsh = 8
+			}
+			for i := 0; i < 2*nsh; i++ {
+				c := core.MkCase("C15", "run", 500+i, seed, c15RunParams{Shape: []string{"pair-cut", "users-then-rate"}[i%2]})
+				c.Solo = true
+				c.Race = i%4 < 2
+				c.TimeoutMS = 60000
+				cs = append(cs, c)
+			}
 			return cs
 		},
 		Kinds:  map[string]core.RunFunc{"parse": c15Parse, "run": c15RunPlan},
@@ -610,7 +623,15 @@ func c15Unit(rate string) time.Duration {
 
 // ---------------------------------------------------------------- run-time part
 
+type c15RunParams struct {
+	Shape string `json:"shape,omitempty"` // "" | pair-cut | users-then-rate
+}
+
 func c15RunPlan(c *core.Case, o *core.Outcome) {
+	var rp c15RunParams
+	if len(c.P) > 0 && string(c.P) != "null" {
+		c.Params(&rp)
+	}
 	r := c.Rng("run")
 	ns := 2 + r.IntN(3)
 	type rst struct {
@@ -619,6 +640,7 @@ func c15RunPlan(c *core.Case, o *core.Outcome) {
 		keys    map[string]string
 		inherit bool // the stage has no parameters of its own: it takes the default section's
 	}
+	limConc, usersConc, rateSpec, bodySleep := 4, 2, "2/10ms", time.Millisecond
 	defKeys := map[string]string{"VERIF_DEFAULT_A": "from-default", "VERIF_SHARED": "default-shared", "VERIF_DEFAULT_EMPTY": ""}
 	withDefaults := r.IntN(2) == 0
 	plan := make([]rst, ns)
@@ -627,6 +649,18 @@ func c15RunPlan(c *core.Case, o *core.Outcome) {
 	defer os.Unsetenv(preKey)
 	var y strings.Builder
 	cutShort := r.IntN(2) == 0
+	cutStage := ns - 1
+	if rp.Shape == "pair-cut" {
+		ns = 3 + r.IntN(2)
+		plan = make([]rst, ns)
+		cutShort, withDefaults, cutStage = true, true, r.IntN(ns-1)
+	}
+	if rp.Shape == "users-then-rate" {
+		ns = 2
+		plan = make([]rst, ns)
+		cutShort, cutStage = false, ns-1
+		limConc, usersConc, rateSpec, bodySleep = 2, 6, "20/100ms", 40*time.Millisecond
+	}
 	var total time.Duration
 	for k := range plan {
 		plan[k] = rst{users: r.IntN(3) == 0, dur: time.Duration(150+r.IntN(250)) * time.Millisecond, keys: map[string]string{fmt.Sprintf("VERIF_STAGE_%d", k): fmt.Sprint(k), "VERIF_SHARED": fmt.Sprintf("stage-%d", k)}}
@@ -650,14 +684,29 @@ func c15RunPlan(c *core.Case, o *core.Outcome) {
 				plan[k].keys[dk] = dv
 			}
 		}
+		if rp.Shape == "pair-cut" && (k == cutStage || k == cutStage+1) && !plan[k].inherit {
+			plan[k].users, plan[k].inherit = false, true
+			plan[k].keys = map[string]string{}
+			for dk, dv := range defKeys {
+				plan[k].keys[dk] = dv
+			}
+		}
+		if rp.Shape == "users-then-rate" {
+			plan[k].users, plan[k].inherit = k == 0, false
+			plan[k].keys = map[string]string{fmt.Sprintf("VERIF_STAGE_%d", k): fmt.Sprint(k)}
+		}
 		total += plan[k].dur
 	}
 	maxDur := total + 5*time.Second
 	if cutShort {
-		// stop in the middle of the last stage
-		maxDur = total - plan[ns-1].dur/2
+		// stop in the middle of a stage (the last one, or the chosen one)
+		maxDur = 0
+		for k := 0; k < cutStage; k++ {
+			maxDur += plan[k].dur
+		}
+		maxDur += plan[cutStage].dur / 2
 	}
-	fmt.Fprintf(&y, "scenario: verifScenario\nlimits:\n  max-duration: %s\n  concurrency: 4\n  max-iterations: 0\n  ignore-dropped: true\ndefault:\n  distribution: none\n  jitter: 0\n", maxDur)
+	fmt.Fprintf(&y, "scenario: verifScenario\nlimits:\n  max-duration: %s\n  concurrency: "+fmt.Sprint(limConc)+"\n  max-iterations: 0\n  ignore-dropped: true\ndefault:\n  distribution: none\n  jitter: 0\n", maxDur)
 	if withDefaults {
 		y.WriteString("  parameters:\n")
 		for _, k := range engine.SortedKeys(defKeys) {
@@ -667,9 +716,9 @@ func c15RunPlan(c *core.Case, o *core.Outcome) {
 	y.WriteString("stages:\n")
 	for _, st := range plan {
 		if st.users {
-			fmt.Fprintf(&y, "- duration: %s\n  mode: users\n  concurrency: 2\n", st.dur)
+			fmt.Fprintf(&y, "- duration: %s\n  mode: users\n  concurrency: %d\n", st.dur, usersConc)
 		} else {
-			fmt.Fprintf(&y, "- duration: %s\n  mode: constant\n  rate: 2/10ms\n", st.dur)
+			fmt.Fprintf(&y, "- duration: %s\n  mode: constant\n  rate: %s\n", st.dur, rateSpec)
 		}
 		if st.inherit {
 			continue
@@ -725,6 +774,7 @@ func c15RunPlan(c *core.Case, o *core.Outcome) {
 		}
 	}
 	seenInBodies := map[int]bool{}
+	stageInflight := make([]atomic.Int64, len(plan))
 	scenario := func(t *f1testing.T) f1testing.RunFn {
 		return func(t *f1testing.T) {
 			// descending stage order: seeing a later stage's key first and an earlier stage's key afterwards proves overlap
@@ -735,6 +785,21 @@ func c15RunPlan(c *core.Case, o *core.Outcome) {
 				}
 			}
 			bodyReads.Add(1)
+			if len(set) == 1 && rp.Shape == "users-then-rate" {
+				// bodies of one stage in flight at once: never more than the stage's pool (a users stage's own number of
+				// users, limits.concurrency for a rate stage). One straggler is tolerated: the stage of a body is read from the
+				// environment when it starts, and a worker of the stage before may have been held up between taking its work
+				// and starting its body
+				j := set[0]
+				lim := int64(limConc)
+				if plan[j].users {
+					lim = int64(usersConc)
+				}
+				if n := stageInflight[j].Add(1); n > lim+1 {
+					note("stage %d (users=%v) had %d iterations in flight at once, its pool is %d (limits.concurrency %d, users %d)", j, plan[j].users, n, lim, limConc, usersConc)
+				}
+				defer stageInflight[j].Add(-1)
+			}
 			if len(set) > 1 {
 				note("a body saw the parameters of stages %v set at once", set)
 			}
@@ -768,7 +833,7 @@ func c15RunPlan(c *core.Case, o *core.Outcome) {
 				seenInBodies[j] = true
 			}
 			mu.Unlock()
-			time.Sleep(time.Millisecond)
+			time.Sleep(bodySleep)
 		}
 	}
 	l := engine.NewLog()
@@ -788,7 +853,7 @@ func c15RunPlan(c *core.Case, o *core.Outcome) {
 		o.Inconc("harness: Do: %v", err)
 		return
 	}
-	desc := fmt.Sprintf("stages=%d cutShort=%v plan=%v", ns, cutShort, plan)
+	desc := fmt.Sprintf("stages=%d cutShort=%v cutStage=%d shape=%q plan=%v", ns, cutShort, cutStage, rp.Shape, plan)
 	key := fmt.Sprintf("run-plan:stages=%d:cut=%v", ns, cutShort)
 	mu.Lock()
 	defer mu.Unlock()
@@ -809,18 +874,22 @@ func c15RunPlan(c *core.Case, o *core.Outcome) {
 	}
 	for i, st := range plan {
 		if st.users {
-			if !seenInBodies[i] && !(cutShort && i == ns-1) {
+			if !seenInBodies[i] && !(cutShort && i >= cutStage) {
 				o.Violate(key, "users stage %d: no body ever saw its parameters (%s)", i, desc)
 				return
 			}
 			continue
 		}
-		if !seen[i] && !(cutShort && i == ns-1) {
+		if !seen[i] && !(cutShort && i >= cutStage) {
 			o.Violate(key, "rate stage %d was never evaluated (%s)", i, desc)
 			return
 		}
 	}
 	for j, st := range plan {
+		if cutShort && j > cutStage {
+			// never started: its parameters were never exported (the pre-existing variable is still the program's own)
+			continue
+		}
 		for k := range st.keys {
 			if v, ok := os.LookupEnv(k); ok {
 				o.Violate(key, "after the run the parameter %s of stage %d is still set (%q) (%s)", k, j, v, desc)
@@ -831,7 +900,7 @@ func c15RunPlan(c *core.Case, o *core.Outcome) {
 	o.Events = evals.Load() + bodyReads.Load()
 	o.AddObs("run_stage_evaluations", evals.Load())
 	o.AddObs("run_env_reads_in_bodies", bodyReads.Load())
-	o.Sig("run:stages=%d:cut=%v:users=%v", ns, cutShort, func() bool {
+	o.Sig("run:stages=%d:cut=%v:shape=%s:users=%v", ns, cutShort, rp.Shape, func() bool {
 		for _, s := range plan {
 			if s.users {
 				return true
